@@ -1,1 +1,162 @@
-// harnesses added below
+//! property C13: int(), uint(), double() return the mathematically corresponding value or an error
+use crate::sym::{any, assume};
+use cel_interpreter::extractors::This;
+use cel_interpreter::{Context, ExecutionError, FunctionContext, Value};
+use std::mem::forget;
+use std::sync::Arc;
+
+#[cfg(kani)]
+pub fn fixed_random_state() -> std::collections::hash_map::RandomState {
+    // HashMap::default() seeds itself from the OS; under Kani that is replaced by a fixed state
+    unsafe { std::mem::transmute((0u64, 0u64)) }
+}
+
+/// `format!` on error paths (Debug text of a Value) dominates CBMC's cost; the message text is irrelevant to the contracts
+#[cfg(kani)]
+pub fn stub_format(_args: std::fmt::Arguments<'_>) -> String {
+    String::new()
+}
+
+/// integral part of a finite double as (negative, magnitude) with magnitude saturated at 2^100; None for NaN / infinity.
+/// Computed from the IEEE-754 bit pattern only.
+pub fn trunc_parts(f: f64) -> Option<(bool, u128, bool)> {
+    let bits = f.to_bits();
+    let neg = (bits >> 63) != 0;
+    let exp = ((bits >> 52) & 0x7ff) as i32;
+    let frac = bits & ((1u64 << 52) - 1);
+    if exp == 0x7ff {
+        return None;
+    }
+    let (m, e) = if exp == 0 { (frac, -1074) } else { (frac | (1u64 << 52), exp - 1075) };
+    let nonzero = m != 0;
+    let t: u128 = if e >= 0 {
+        if e > 40 { 1u128 << 100 } else { (m as u128) << (e as u32) }
+    } else {
+        let sh = (-e) as u32;
+        if sh >= 64 { 0 } else { (m >> sh) as u128 }
+    };
+    Some((neg, t, nonzero))
+}
+
+fn call(f: fn(&FunctionContext, This<Value>) -> Result<Value, ExecutionError>, v: Value) -> Result<Value, ExecutionError> {
+    let ctx = Context::empty();
+    let ftx = FunctionContext::new(Arc::new(String::new()), None, &ctx, Vec::new());
+    let r = f(&ftx, This(v));
+    forget(ftx);
+    forget(ctx);
+    r
+}
+
+#[cfg_attr(kani, kani::proof)]
+#[cfg_attr(kani, kani::unwind(6))]
+#[cfg_attr(kani, kani::stub(std::collections::hash_map::RandomState::new, fixed_random_state))]
+#[cfg_attr(kani, kani::stub(alloc::fmt::format, stub_format))]
+pub fn c13_int_of_double() {
+    let f: f64 = any();
+    let r = call(cel_interpreter::functions::int, Value::Float(f));
+    match trunc_parts(f) {
+        None => assert!(r.is_err()),
+        Some((neg, t, _)) => {
+            let in_range = if neg { t <= (1u128 << 63) } else { t < (1u128 << 63) };
+            if in_range {
+                let want: i64 = if neg { (-(t as i128)) as i64 } else { t as i64 };
+                assert!(matches!(r, Ok(Value::Int(x)) if x == want));
+            } else {
+                assert!(r.is_err());
+            }
+        }
+    }
+    forget(r);
+}
+#[cfg_attr(kani, kani::proof)]
+#[cfg_attr(kani, kani::unwind(6))]
+#[cfg_attr(kani, kani::stub(std::collections::hash_map::RandomState::new, fixed_random_state))]
+#[cfg_attr(kani, kani::stub(alloc::fmt::format, stub_format))]
+pub fn c13_uint_of_double() {
+    let f: f64 = any();
+    let r = call(cel_interpreter::functions::uint, Value::Float(f));
+    match trunc_parts(f) {
+        None => assert!(r.is_err()),
+        Some((neg, t, nonzero)) => {
+            if neg && t > 0 {
+                assert!(r.is_err());
+            } else if neg && nonzero {
+                // -1 < f < 0: the statement admits both readings (error, or truncation to 0); never anything else
+                assert!(r.is_err() || matches!(r, Ok(Value::UInt(0))));
+            } else if t <= u64::MAX as u128 {
+                assert!(matches!(r, Ok(Value::UInt(x)) if x as u128 == t));
+            } else {
+                assert!(r.is_err());
+            }
+        }
+    }
+    forget(r);
+}
+#[cfg_attr(kani, kani::proof)]
+#[cfg_attr(kani, kani::unwind(6))]
+#[cfg_attr(kani, kani::stub(std::collections::hash_map::RandomState::new, fixed_random_state))]
+#[cfg_attr(kani, kani::stub(alloc::fmt::format, stub_format))]
+pub fn c13_int_uint_cross() {
+    let i: i64 = any();
+    let u: u64 = any();
+    let r = call(cel_interpreter::functions::int, Value::UInt(u));
+    if u <= i64::MAX as u64 { assert!(matches!(r, Ok(Value::Int(x)) if x as u64 == u)); } else { assert!(r.is_err()); }
+    forget(r);
+    let r = call(cel_interpreter::functions::uint, Value::Int(i));
+    if i >= 0 { assert!(matches!(r, Ok(Value::UInt(x)) if x == i as u64)); } else { assert!(r.is_err()); }
+    forget(r);
+    let r = call(cel_interpreter::functions::int, Value::Int(i));
+    assert!(matches!(r, Ok(Value::Int(x)) if x == i));
+    forget(r);
+    let r = call(cel_interpreter::functions::uint, Value::UInt(u));
+    assert!(matches!(r, Ok(Value::UInt(x)) if x == u));
+    forget(r);
+}
+/// double(int) / double(uint): the nearest double (IEEE round-to-nearest-even `as` cast, stated assumption), never an error;
+/// exactness where representable: converting back gives the same integer whenever |i| <= 2^53
+#[cfg_attr(kani, kani::proof)]
+#[cfg_attr(kani, kani::unwind(6))]
+#[cfg_attr(kani, kani::stub(std::collections::hash_map::RandomState::new, fixed_random_state))]
+#[cfg_attr(kani, kani::stub(alloc::fmt::format, stub_format))]
+pub fn c13_double_of_int() {
+    let i: i64 = any();
+    let u: u64 = any();
+    let r = call(cel_interpreter::functions::double, Value::Int(i));
+    match &r {
+        Ok(Value::Float(d)) => {
+            assert!(crate::cmp::oracle_cmp(i as i128, *d).is_some());
+            if i >= -(1i64 << 53) && i <= (1i64 << 53) { assert!(crate::cmp::oracle_cmp(i as i128, *d) == Some(std::cmp::Ordering::Equal)); }
+        }
+        _ => assert!(false),
+    }
+    forget(r);
+    let r = call(cel_interpreter::functions::double, Value::UInt(u));
+    match &r {
+        Ok(Value::Float(d)) => {
+            if u <= (1u64 << 53) { assert!(crate::cmp::oracle_cmp(u as i128, *d) == Some(std::cmp::Ordering::Equal)); }
+        }
+        _ => assert!(false),
+    }
+    forget(r);
+    let f: f64 = any();
+    let r = call(cel_interpreter::functions::double, Value::Float(f));
+    assert!(matches!(r, Ok(Value::Float(x)) if x.to_bits() == f.to_bits()));
+    forget(r);
+}
+/// conversions of a non-convertible receiver are errors, never panics
+#[cfg_attr(kani, kani::proof)]
+#[cfg_attr(kani, kani::unwind(6))]
+#[cfg_attr(kani, kani::stub(std::collections::hash_map::RandomState::new, fixed_random_state))]
+#[cfg_attr(kani, kani::stub(alloc::fmt::format, stub_format))]
+pub fn c13_non_numeric_receiver_is_error() {
+    let b: bool = any();
+    let r = call(cel_interpreter::functions::int, Value::Bool(b));
+    assert!(r.is_err());
+    forget(r);
+    let r = call(cel_interpreter::functions::uint, Value::Null);
+    assert!(r.is_err());
+    forget(r);
+    let r = call(cel_interpreter::functions::double, Value::Bool(b));
+    assert!(r.is_err());
+    forget(r);
+}
